@@ -1,42 +1,62 @@
 ---------------------------- MODULE MC_OmsPartition ----------------------------
 (* C15 part A, bounded: every line graph on 3 ROADM sites (each site touched by a link), every directed   *)
-(* link being one of four chain kinds (the two directions may differ), at most one link one-way.  The module builds the typed graph and its expected    *)
-(* OMS list itself (Partition), states the partition clauses on it (consistency of the oracle) and hands     *)
-(* every topology to the harness, which designs the real network and lets Trace_OmsMap judge build_oms_list.  *)
+(* link being one of four chain kinds (the two directions may differ), at most one link one-way, and at most  *)
+(* one pair of sites connected by TWO routes (parallel links on different ROADM degrees - a protection        *)
+(* layout; the second route may itself be the one-way link; in a topology with parallel routes every chain is *)
+(* a plain fibre or a fibre with a user amplifier, per direction: the chain kinds are varied exhaustively on   *)
+(* the topologies without parallel routes).  The module builds the typed graph and its expected OMS list itself (Partition),     *)
+(* states the partition clauses on it (consistency of the oracle) and hands every topology to the harness,    *)
+(* which designs the real network and lets Trace_OmsMap judge build_oms_list.                                 *)
+(* A directed link is <<from, to, route>>.  Pairing: the property says "opposite directions are paired"; with *)
+(* parallel routes it does not say WHICH of the opposite OMS is the partner, so the oracle keeps the set of    *)
+(* candidates (revs) - a singleton on both sides wherever the routes are not parallel, and then the pairing   *)
+(* is an involution.                                                                                          *)
 EXTENDS Integers, Sequences, FiniteSets, TLC, Json
 
 Sites == 1..3
 Pairs == {<<a, b>> \in Sites \X Sites : a < b}
 Kinds == {"F", "FF", "FuF", "FAF"}       \* fibre | fibre fibre | fibre fused fibre | fibre user-amp fibre
+Kinds2 == {"F", "FAF"}                   \* chain kinds in a topology with a second (parallel) route
 
-VARIABLES links, kind, oneway
-vars == <<links, kind, oneway>>
+VARIABLES links, double, oneway, dirs, kind
+vars == <<links, double, oneway, dirs, kind>>
 Touched == {p[1] : p \in links} \cup {p[2] : p \in links}
-DirOf(L, O) == {<<p[1], p[2]>> : p \in L} \cup {<<p[2], p[1]>> : p \in L \ O}
+RoutesOf(L, D) == {<<p[1], p[2], 1>> : p \in L} \cup {<<p[1], p[2], 2>> : p \in D}
+DirOf(R, O) == {<<x[1], x[2], x[3]>> : x \in R} \cup {<<x[2], x[1], x[3]>> : x \in R \ O}
 Init == /\ links \in (SUBSET Pairs) \ {{}}
         /\ Touched = Sites
-        /\ oneway \in {{}} \cup {{p} : p \in links}
-        /\ kind \in [DirOf(links, oneway) -> Kinds]        \* each direction has its own chain (asymmetric lines)
+        /\ double \in {{}} \cup {{p} : p \in links}
+        /\ oneway \in {{}} \cup {{x} : x \in RoutesOf(links, double)}
+        /\ dirs = DirOf(RoutesOf(links, double), oneway)
+        \* each direction has its own chain (asymmetric lines)
+        /\ kind \in [dirs -> IF double = {} THEN Kinds ELSE Kinds2]
 Next == FALSE /\ UNCHANGED vars
 
-\* directed links and the chain of line elements each carries: element = <<a, b, position, type>>
-Directed == DirOf(links, oneway)
+\* directed links and the chain of line elements each carries: element = <<link, position>>
+Directed == dirs
 KindOf(d) == kind[d]
 Chain(d) == CASE KindOf(d) = "F"   -> <<"Fiber">>
               [] KindOf(d) = "FF"  -> <<"Fiber", "Fiber">>
               [] KindOf(d) = "FuF" -> <<"Fiber", "Fused", "Fiber">>
               [] KindOf(d) = "FAF" -> <<"Fiber", "Edfa", "Fiber">>
-Elements == {<<d, i>> : d \in Directed, i \in 1..3} \cap {<<d, i>> \in Directed \X (1..3) : i <= Len(Chain(d))}
-\* expected partition: one OMS per directed link, holding exactly that link's elements, reverse = the opposite link
+Elements == UNION {{<<d, i>> : i \in 1..Len(Chain(d))} : d \in Directed}
+Opp(d) == {e \in Directed : e[1] = d[2] /\ e[2] = d[1]}          \* the OMS of the opposite direction
+Par(d) == {e \in Directed : e[1] = d[1] /\ e[2] = d[2]}          \* the OMS between the same ROADMs, d included
+\* expected partition: one OMS per directed link, holding exactly that link's elements; reverse = an opposite link
 Partition == [d \in Directed |-> [from |-> d[1], to |-> d[2], els |-> {<<d, i>> : i \in 1..Len(Chain(d))},
-                                  rev |-> IF <<d[2], d[1]>> \in Directed THEN <<d[2], d[1]>> ELSE <<0, 0>>]]
+                                  revs |-> Opp(d)]]
 
 EveryElementInExactlyOneOms == \A e \in Elements : Cardinality({d \in Directed : e \in Partition[d].els}) = 1
-ReverseIsInvolution == \A d \in Directed : Partition[d].rev # <<0, 0>> =>
-                           /\ Partition[Partition[d].rev].rev = d
-                           /\ Partition[Partition[d].rev].from = Partition[d].to
-                           /\ Partition[Partition[d].rev].to = Partition[d].from
+PairingIsMutual == \A d, e \in Directed : (e \in Partition[d].revs) <=> (d \in Partition[e].revs)
+OppositeEndPoints == \A d \in Directed : \A e \in Partition[d].revs :
+                           Partition[e].from = Partition[d].to /\ Partition[e].to = Partition[d].from
+\* without parallel routes the partner is unique and the pairing is an involution
+ReverseIsInvolution == \A d \in Directed : (Cardinality(Par(d)) = 1 /\ Cardinality(Opp(d)) = 1) =>
+                           \A e \in Partition[d].revs : Partition[e].revs = {d}
+\* with parallel routes every one of them still has a partner as soon as one opposite OMS exists
+ParallelRoutesArePaired == \A d \in Directed : \A e \in Par(d) : (Partition[d].revs = {}) <=> (Partition[e].revs = {})
 OneOmsPerDirectedLink == Cardinality(DOMAIN Partition) = Cardinality(Directed)
 
-Emit == PrintT("@@" \o ToJson([links |-> [d \in Directed |-> Chain(d)], n |-> Cardinality(Directed)]))
+Emit == PrintT("@@" \o ToJson([links |-> [d \in Directed |-> Chain(d)], n |-> Cardinality(Directed),
+                                par |-> Cardinality(double)]))
 ==============================================================================
